@@ -198,13 +198,122 @@ static void case_meta(uint64_t idx, vf_rng *r)
 	vf_sample("%s: %d addref/unref/clone operations, %d objects", kn[kind], nops, nobj);
 }
 
+
+/* ---- layout graphs: items, axis and world bindings hold counted references ---------------- */
+#include "layout.h"
+static long g_destroyed[8];
+class CAxis : public mpt::reference<mpt::layout::graph::axis>::type
+{
+public:
+	int id;
+	CAxis() : id(-1) { }
+	~CAxis() __MPT_OVERRIDE { if (id >= 0) g_destroyed[id]++; vf_count("monitor:graph-object-destroyed", 1); }
+	uintptr_t count() const { return _ref.value(); }
+};
+class CWorld : public mpt::reference<mpt::layout::graph::world>::type
+{
+public:
+	int id;
+	CWorld() : id(-1) { }
+	~CWorld() __MPT_OVERRIDE { if (id >= 0) g_destroyed[id]++; vf_count("monitor:graph-object-destroyed", 1); }
+	uintptr_t count() const { return _ref.value(); }
+};
+static void case_graph(vf_rng *r)
+{
+	typedef mpt::reference<mpt::layout::graph>::type Graph;
+	const int NA = 3, NW = 3;
+	static const char *names[] = { "x", "y", "z", "w1", "w2", "ax" };
+	int nops = vf_range(r, 5, 30), refused_binds = 0, binds = 0;
+	CAxis *ax[NA]; CWorld *wd[NW];
+	memset(g_destroyed, 0, sizeof(g_destroyed));
+	for (int i = 0; i < NA; i++) { ax[i] = new CAxis; ax[i]->id = i; }
+	for (int i = 0; i < NW; i++) { wd[i] = new CWorld; wd[i]->id = NA + i; }
+	Graph *g = new Graph;
+	vf_fp_u64(0x96af);
+	for (int i = 0; i < nops; i++) {
+		int op = (int) vf_below(r, 8), k = (int) vf_below(r, 3);
+		char cb[160];
+		snprintf(cb, sizeof(cb), "graph op=%d k=%d items=%zu axes=%zu worlds=%zu", op, k, (size_t) g->items().size(), (size_t) g->axes().size(), (size_t) g->worlds().size());
+		std::string ctx = cb;
+		vf_log("%s", cb);
+		vf_fp_u64((op << 8) ^ k);
+		switch (op) {
+		case 0: case 1: {
+			mpt::identifier id;
+			id.set_name(names[vf_below(r, 6)]);
+			vf_at("item_group::append"); vf_count("graph:append-axis", 1);
+			if (g->items().size() > 12) break;
+			if (!ax[k]->addref()) vf_inconclusive("addref failed");
+			if (g->append(&id, ax[k]) < 0) ax[k]->unref();
+			break; }
+		case 2: {
+			mpt::identifier id;
+			id.set_name(names[vf_below(r, 6)]);
+			vf_at("item_group::append"); vf_count("graph:append-world", 1);
+			if (g->items().size() > 12) break;
+			if (!wd[k]->addref()) vf_inconclusive("addref failed");
+			if (g->append(&id, wd[k]) < 0) wd[k]->unref();
+			break; }
+		case 3: case 4: {
+			/* same axis in two items makes the second add_axis refuse: bind fails and must leave the counts alone */
+			bool dup = false;
+			for (int q = 0; q < NA; q++) {
+				int c = 0;
+				for (auto &it : g->items()) if (it.instance() == static_cast<mpt::metatype *>(ax[q])) c++;
+				if (c > 1) dup = true;
+			}
+			vf_at("graph::bind"); vf_count("graph:bind", 1);
+			int ret = g->bind(0, 0);
+			binds++;
+			if (dup) { vf_count("state:bind-with-axis-in-two-items", 1); VF_CHECK(ret < 0, "cxxgraph:bind:accepted-shared-axis", "%s: returned %d", ctx.c_str(), ret); }
+			if (ret < 0) { refused_binds++; vf_count("graph:bind-refused", 1); }
+			break; }
+		case 5:
+			vf_at("item_group::clear"); vf_count("graph:clear-items", 1);
+			if (vf_chance(r, 1, 2)) g->clear(); else g->clear(static_cast<mpt::metatype *>(ax[k]));
+			break;
+		case 6:
+			vf_at("graph::add_axis"); vf_count("graph:add_axis", 1);
+			if (!ax[k]->addref()) vf_inconclusive("addref failed");
+			if (!g->add_axis(ax[k], names[vf_below(r, 6)])) ax[k]->unref();
+			break;
+		default:
+			vf_count("graph:release", 1);
+			g->unref();
+			g = new Graph;
+			break;
+		}
+		/* conservation: harness handle + items + bindings */
+		for (int q = 0; q < NA + NW; q++) {
+			long expect = 1;
+			const mpt::metatype *m = q < NA ? static_cast<mpt::metatype *>(ax[q]) : static_cast<mpt::metatype *>(wd[q - NA]);
+			for (auto &it : g->items()) if (it.instance() == m) expect++;
+			if (q < NA) { for (auto &it : g->axes()) if (it.instance() == ax[q]) expect++; }
+			else { for (auto &it : g->worlds()) if (it.instance() && it.instance()->world.instance() == wd[q - NA]) expect++; }
+			long have = q < NA ? (long) ax[q]->count() : (long) wd[q - NA]->count();
+			VF_CHECK(g_destroyed[q] == 0, "cxxgraph:destroyed-while-referenced", "%s: object %d destroyed while the harness holds a handle", ctx.c_str(), q);
+			VF_CHECK(have == expect, have > expect ? "cxxgraph:reference-leaked" : "cxxgraph:reference-lost",
+			         "%s: %s %d has %ld references, %ld handles exist", ctx.c_str(), q < NA ? "axis" : "world", q, have, expect);
+		}
+		vf_count("monitor:graph-checks", 1);
+	}
+	g->unref();
+	for (int q = 0; q < NA; q++) { VF_CHECK(ax[q]->count() == 1, "cxxgraph:reference-leaked", "axis %d keeps %ld references after the graph is gone", q, (long) ax[q]->count()); ax[q]->unref(); }
+	for (int q = 0; q < NW; q++) { VF_CHECK(wd[q]->count() == 1, "cxxgraph:reference-leaked", "world %d keeps %ld references after the graph is gone", q, (long) wd[q]->count()); wd[q]->unref(); }
+	for (int q = 0; q < NA + NW; q++) VF_CHECK(g_destroyed[q] == 1, "cxxgraph:destroyed-twice", "object %d destroyed %ld times", q, g_destroyed[q]);
+	if (binds) vf_nontrivial();
+	vf_sample("layout::graph with 3 counted axes and 3 counted worlds: %d append/bind/clear/add_axis/release operations, %d binds (%d refused)", nops, binds, refused_binds);
+}
+
 static uint64_t n_ref(void) { return vf_thorough ? 400000 : 40000; }
 static uint64_t n_meta(void) { return vf_thorough ? 300000 : 30000; }
 static uint64_t n_item(void) { return vf_thorough ? 150000 : 15000; }
-uint64_t vf_cases(void) { return n_ref() + n_meta() + n_item(); }
+static uint64_t n_graph(void) { return vf_thorough ? 150000 : 15000; }
+uint64_t vf_cases(void) { return n_ref() + n_meta() + n_item() + n_graph(); }
 void vf_case(uint64_t idx, vf_rng *r)
 {
 	if (idx < n_ref()) case_reference(r);
 	else if (idx < n_ref() + n_meta()) case_meta(idx - n_ref(), r);
-	else ia::run(r, "cxxitem");
+	else if (idx < n_ref() + n_meta() + n_item()) ia::run(r, "cxxitem");
+	else case_graph(r);
 }
